@@ -20,6 +20,21 @@ PROPS = {
     },
 }
 
+PROPS["C16"] = {
+    "lean_modules": ["Ogen.Props.C16"],
+    "suites": ["c16"],
+    "trusted_base": [
+        KERNEL, HARNESS,
+        "statements in lean/Ogen/Props/C16.lean and the inductive specs TokOk, rfcIndex, Eval, Rfc, Pct, RfcAny (Ogen/JsonPointer_proof.lean), written from RFC 6901 §3-§6 and RFC 3986 §2.1",
+        "model Ptr.resolve/find is hand-written from jsonpointer.go + split.go; tie = differential run against jsonpointer.Resolve on yaml.Node trees (every valid pointer in both spellings, single-edit mutants, random strings); strings.NewReplacer, strconv.ParseUint and url.PathUnescape are modelled, not verified",
+        "the url.Parse branch (a URI reference that starts with neither / nor #) is outside the model; it is compared on the implementation with a net/url-based reference only",
+    ],
+    "assumptions": ["YAML alias nodes are not followed by Resolve (they are 'unexpected type'), documents are trees", "arrays have fewer than 2^64 elements (completeness only)"],
+    "level_text": "full for the plain and #-fragment forms: resolve_iff (Resolve returns r iff RFC 6901 evaluation designates r), never_different without any hypothesis, tilde and percent decoding equal to the RFC grammars, for every document tree and every byte string; model tied to the code differentially on every run",
+    "level_note": "trusted: Lean kernel, statements/specs, the differential tie of the hand-written model (strings.Replacer, ParseUint, PathUnescape are modelled), the harness. URI-reference inputs (url.Parse branch) are checked against a Go reference only.",
+    "technique": "Lean 4 refinement proof (model of Resolve = inductive RFC 6901 evaluation relation); model=code by differential correspondence",
+}
+
 # properties not claimed, with the reason (kept current; see DESIGN.md §7)
 NOT_CLAIMED = {
     "C10": "not applicable: determinism/race-freedom of generation lives in Go map iteration order, goroutine scheduling and the memory model; no executable model separate from the runtime can express it (DESIGN.md §7)",
